@@ -404,6 +404,93 @@ theorem C13_shape (c : Top) : shapeErrs c = [] ↔
 example : shapeErrs { receivers := [], exporters := [], connectors := [], processors := [], extensions := [], svcExtensions := [],
                       pipelines := [(0, ⟨[1], [4, 5, 4], [2]⟩), (1, ⟨[], [], [2]⟩)] } = [.dupProcessor 0 4, .pipeNoReceivers 1] := by decide
 
+/-! ## (d) several instances in one section -/
+
+def AddrInv (s : LoadSt) : Prop := ∀ id a, s.out.lookup id = some a → a < s.next
+
+theorem step_result_new (d : String → Obj) (s : LoadSt) (e : CId × List (String × String)) :
+    (loadStep d s e).result e.1 = some (overlay (d e.1.1) e.2) := by
+  simp [loadStep, LoadSt.result, List.lookup_cons]
+
+theorem step_result_old (d : String → Obj) (s : LoadSt) (e : CId × List (String × String)) (id : CId)
+    (hne : id ≠ e.1) (hinv : AddrInv s) : (loadStep d s e).result id = s.result id := by
+  have h1 : (id == e.1) = false := by simpa using hne
+  simp only [loadStep, LoadSt.result, List.lookup_cons, h1]
+  cases h : s.out.lookup id with
+  | none => rfl
+  | some a =>
+    have := hinv id a h
+    have h2 : (a == s.next) = false := by simp; omega
+    simp [h2]
+
+theorem step_inv (d : String → Obj) (s : LoadSt) (e : CId × List (String × String)) (hinv : AddrInv s) :
+    AddrInv (loadStep d s e) := by
+  intro id a h
+  simp only [loadStep, List.lookup_cons] at h ⊢
+  by_cases hq : (id == e.1) = true
+  · simp [hq] at h; omega
+  · simp [hq] at h; have := hinv id a h; omega
+
+theorem fold_load (d : String → Obj) : ∀ (entries : List (CId × List (String × String))) (s : LoadSt),
+    AddrInv s → (entries.map (·.1)).Nodup →
+    (∀ e ∈ entries, (entries.foldl (loadStep d) s).result e.1 = some (overlay (d e.1.1) e.2)) ∧
+    (∀ id, id ∉ entries.map (·.1) → (entries.foldl (loadStep d) s).result id = s.result id)
+  | [], s, _, _ => ⟨fun e h => (by cases h), fun _ _ => rfl⟩
+  | e :: es, s, hinv, hnd => by
+    simp only [List.map_cons, List.nodup_cons] at hnd
+    obtain ⟨ih1, ih2⟩ := fold_load d es (loadStep d s e) (step_inv d s e hinv) hnd.2
+    simp only [List.foldl_cons]
+    refine ⟨fun e' he' => ?_, fun id hid => ?_⟩
+    · cases he' with
+      | head => rw [ih2 e.1 hnd.1]; exact step_result_new d s e
+      | tail _ h => exact ih1 e' h
+    · simp only [List.map_cons, List.mem_cons, not_or] at hid
+      rw [ih2 id hid.2]; exact step_result_old d s e id hid.1 hinv
+
+/-- **Instances are independent**: for every section (any number of instances, any iteration order
+of the Go map, several instances of the same type), every instance ends up with the factory defaults
+of its type overlaid by exactly *its own* written keys — what its neighbours write is irrelevant.
+Rests on `loadStep` allocating a fresh default object per id (differentially checked against the real
+`otelcol.ConfigProvider.Get` with the built-in factories). -/
+theorem C13_instances_independent (defaults : String → Obj) (entries : List (CId × List (String × String)))
+    (hnd : (entries.map (·.1)).Nodup) :
+    ∀ e ∈ entries, (loadAll defaults entries).result e.1 = some (overlay (defaults e.1.1) e.2) :=
+  (fold_load defaults entries {} (fun _ _ h => by simp at h) hnd).1
+
+theorem lookup_map_set (k v : String) : ∀ d : Obj, d.any (fun p => p.1 == k) = true →
+    (d.map (fun p => if p.1 == k then (k, v) else p)).lookup k = some v
+  | [], h => by simp at h
+  | (a, b) :: ps, h => by
+    by_cases hk : a = k
+    · simp [List.lookup_cons, hk]
+    · have hf : (k == a) = false := beq_eq_false_iff_ne.mpr (Ne.symm hk)
+      have hf' : (a == k) = false := beq_eq_false_iff_ne.mpr hk
+      simp only [List.map_cons, hf', Bool.false_eq_true, if_false, List.lookup_cons, hf]
+      apply lookup_map_set k v ps
+      simpa [List.any_cons, hf'] using h
+
+theorem lookup_append_new (k v : String) : ∀ d : Obj, d.any (fun p => p.1 == k) = false →
+    (d ++ [(k, v)]).lookup k = some v
+  | [], _ => by simp [List.lookup_cons]
+  | (a, b) :: ps, h => by
+    simp only [List.any_cons, Bool.or_eq_false_iff] at h
+    have hk : a ≠ k := by simpa using h.1
+    have hf : (k == a) = false := beq_eq_false_iff_ne.mpr (Ne.symm hk)
+    simp only [List.cons_append, List.lookup_cons, hf]
+    exact lookup_append_new k v ps h.2
+
+/-- a written key is reflected in the result -/
+theorem C13_overlay_reflects (d : Obj) (k v : String) : (setKey d k v).lookup k = some v := by
+  unfold setKey
+  by_cases h : d.any (fun p => p.1 == k) = true
+  · simp only [h, if_true]; exact lookup_map_set k v d h
+  · simp only [h, Bool.false_eq_true, if_false]; exact lookup_append_new k v d (by simpa only [Bool.not_eq_true] using h)
+
+/-- non-vacuity: two exporters of the same type writing different keys -/
+example : (loadAll (fun _ => [("endpoint", ""), ("timeout", "30")])
+            [(("otlphttp", "a"), [("endpoint", "x")]), (("otlphttp", "b"), [("timeout", "5")])]).result ("otlphttp", "b")
+          = some [("endpoint", ""), ("timeout", "5")] := by decide
+
 /-! ## (c) strict decode -/
 
 /-- the value contains, at some depth, a key that the schema position it sits at does not accept -/
